@@ -542,6 +542,12 @@ int main(int argc, char **argv) {
       if (r.status == 0) { std::string f = slurp(ctx.scratch + "/t.bin"); for (std::string in : {std::string(""), std::string("5"), std::string("a\n")}) progs.push_back({n, f, n == "xhexb.x" ? slurp(ctx.repo + "/tests/x/hello_putval.x") : in}); }
       else rep.st.add("runs_not_compiled");
     }
+    // code outside the loaded image: the program stores a two-instruction routine (LDAC 0; OPR SVC) at word D and enters it with BRB; D from just past the image to the last word
+    for (int D : {8, 9, 10, 12, 16, 64, 1000, 4096, 65535, 65536, 131072, 199999}) {
+      std::string src = "BR start\nDATA 150000\nstart\nLDAC 75\nLDBM 1\nSTAI 2\nLDAC 54064\nSTAM " + std::to_string(D) + "\nLDBC " + std::to_string(D * 4) + "\nOPR BRB\n";
+      auto r = ad::assemble_text(src, ad::A_FILE, ctx.scratch + "/t.bin");
+      if (r.kind == 0) progs.push_back({"code-outside-image:" + std::to_string(D), r.file, ""}); else rep.st.add("runs_not_assembled");
+    }
     auto body = [&](uint64_t b, uint64_t e, const std::set<uint64_t> &skip, Stats &st, volatile uint64_t *cur) {
       std::string dir = ctx.scratch + "/runs" + std::to_string(b); mkdir(dir.c_str(), 0755); if (chdir(dir.c_str())) exit(3);
       for (uint64_t i = b; i < e; i++) {
